@@ -151,6 +151,12 @@ type FuncV struct {
 
 type MapV struct{ Obj int }
 
+// MapObjV is the content of a map object: exact keys in insertion order.
+type MapObjV struct {
+	K []Val
+	V []Val
+}
+
 // ---------------------------------------------------------------------------
 
 func pathAppend(p string, i int) string {
@@ -178,6 +184,13 @@ func cloneVal(v Val) Val {
 		n := &TupleV{E: make([]Val, len(x.E))}
 		for i, f := range x.E {
 			n.E[i] = cloneVal(f)
+		}
+		return n
+	case *MapObjV:
+		n := &MapObjV{}
+		for i := range x.K {
+			n.K = append(n.K, cloneVal(x.K[i]))
+			n.V = append(n.V, cloneVal(x.V[i]))
 		}
 		return n
 	case AbsStr:
@@ -308,6 +321,12 @@ func fmtVal(v Val, ptrName func(int) string) string {
 		return fmt.Sprintf("func(%v|%s)", x.Fn, strings.Join(parts, ","))
 	case MapV:
 		return "map" + ptrName(x.Obj)
+	case *MapObjV:
+		parts := make([]string, len(x.K))
+		for i := range x.K {
+			parts[i] = fmtVal(x.K[i], ptrName) + ":" + fmtVal(x.V[i], ptrName)
+		}
+		return "map{" + strings.Join(parts, ",") + "}"
 	}
 	return fmt.Sprintf("<%T>", v)
 }
@@ -337,6 +356,11 @@ func valRefs(v Val, out *[]int) {
 		}
 	case IfaceV:
 		valRefs(x.V, out)
+	case *MapObjV:
+		for i := range x.K {
+			valRefs(x.K[i], out)
+			valRefs(x.V[i], out)
+		}
 	case *FuncV:
 		for _, f := range x.Bind {
 			valRefs(f, out)
